@@ -125,6 +125,15 @@ def run_case(cs):
                             f.write(b"\x00\x05\x16\x07 junk" if not junk.endswith(".tmp") else b"<stale>\n" + b"  <left over by an interrupted run/>\n" * 600)
                         steps.append(f"junk {junk!r} in {h!r}")
                         cs.count("junk_files_in_ascmhl")
+        if i > 0 and rng.random() < 0.1 and len(os.fsencode(os.path.basename(root))) < 200:
+            # the folder is given another name between two runs (card renamed, "_backup" copy): new manifests carry
+            # the name the folder has now
+            newroot = root + rng.choice(["_backup", " copy", "-2", ".old"])
+            if not os.path.exists(newroot):
+                os.rename(root, newroot)
+                root = newroot
+                steps.append(f"history folder renamed to {os.path.basename(root)!r}")
+                cs.count("history_folder_renamed_between_runs")
         emptied = False
         if i > 0 and rng.random() < 0.04:
             # everything below one history folder is gone (card wiped, folder emptied): the history still gets its generation
